@@ -39,7 +39,7 @@ func vCheckCode(code []uint8, sub []float32, codebooks [][]float32, M, Ksub, dsu
 	}
 }
 
-var vPQShapes = [][3]int{{1, 1, 1}, {2, 2, 1}, {2, 1, 1}, {1, 1, 2}} // dim, M, nbits
+var vPQShapes = [][3]int{{1, 1, 1}, {2, 2, 1}, {2, 1, 1}, {1, 1, 2}, {3, 1, 1}} // dim, M, nbits
 
 // PQ: symbolic codebooks, symbolic vectors, symbolic query and k
 func H_C14_pq() {
@@ -87,7 +87,7 @@ func H_C14_pq() {
 // exact top-k over the live vectors of the probed clusters
 func H_C14_ivfpq() {
 	metric := vMetrics[vChoose("metric", 3)]
-	sh := vPQShapes[vChoose("shape", 2)]
+	sh := vPQShapes[[]int{0, 1, 4}[vChoose("shape", 3)]]
 	dim := sh[0]
 	vPQM, vPQNbits = sh[1], sh[2]
 	nlist := 1
